@@ -51,7 +51,11 @@ Inductive top :=
 | TWDropRx (w rslot : nat)
 | TWSubscribe (w slot rslot : nat)         (* tx.subscribe() into the empty receiver slot rslot *)
 | TWClosed (w slot : nat)                  (* tx.closed().await *)
-| TWInfo (w slot : nat).                   (* tx.is_closed(), tx.receiver_count() *)
+| TWInfo (w slot : nat)                    (* tx.is_closed(), tx.receiver_count() *)
+| TDowngrade (s : nat) (k : N)             (* RwLockWriteGuard::downgrade of the most recent guard of s (k = the lock's max_readers) *)
+| TMerge (s : nat)                         (* SemaphorePermit::merge of the two most recent permits of s *)
+| TSplit (s : nat) (n : N)                 (* SemaphorePermit::split(n) of the most recent permit of s *)
+| TOsIsClosed (o : nat).                   (* oneshot Sender::is_closed *)
 
 Definition TG_SPAWNT : N := 50. Definition TG_JOINT : N := 51. Definition TG_SPAWNA : N := 52. Definition TG_AWAITA : N := 53.
 Definition TG_YIELD : N := 54. Definition TG_END : N := 55. Definition TG_START : N := 56.
@@ -67,6 +71,7 @@ Definition TG_WSEND : N := 100. Definition TG_WMODIFY : N := 101. Definition TG_
 Definition TG_WBORROWUPD : N := 104. Definition TG_WHASCHANGED : N := 105. Definition TG_WCHANGED : N := 106. Definition TG_WWAITFOR : N := 107.
 Definition TG_WDROPTX : N := 108. Definition TG_WDROPRX : N := 109. Definition TG_WSUBSCRIBE : N := 110. Definition TG_WCLOSED : N := 111.
 Definition TG_WINFO : N := 112.
+Definition TG_DOWNGRADE : N := 113. Definition TG_MERGE : N := 114. Definition TG_SPLIT : N := 115. Definition TG_OSISCLOSED : N := 116.
 Definition TG_MISUSE : N := 98.          (* the harness refused the operation (dead endpoint, nothing held, ...) *)
 
 (* permits / guards held by a body: (semaphore object, permits), newest first *)
@@ -75,6 +80,14 @@ Fixpoint take_held (s : nat) (hs : list (nat * N)) : option (N * list (nat * N))
   | [] => None
   | (s', n) :: r => if Nat.eqb s s' then Some (n, r)
                     else match take_held s r with Some (n', r') => Some (n', (s', n) :: r') | None => None end
+  end.
+
+(* SemaphorePermit::split(n) on the newest entry of s: it keeps k - n permits in place, the new permit is the newest *)
+Fixpoint split_held (s : nat) (n : N) (hs : list (nat * N)) : option (list (nat * N)) :=
+  match hs with
+  | [] => None
+  | (s', k) :: r => if Nat.eqb s s' then (if N.leb n k then Some ((s', (k - n)%N) :: r) else None)
+                    else match split_held s n r with Some r' => Some ((s', k) :: r') | None => None end
   end.
 
 (* what a body still holds when it returns is dropped newest first: each drop is add_permits(n) = release(n) *)
@@ -298,6 +311,34 @@ Fixpoint tcomp (fuel : nat) (jt : nat) (bodies : list (list top)) (b : nat) (ctx
                 if alive then
                   Atomic (fun e st => match watch_info st w with Some l => Some (e, st, l) | None => None end)
                     (fun a => Log TG_WINFO a (go r hs js held fs ahs))
+                else misuse)
+         | TDowngrade s k =>
+           (* `let to_release = permits_acquired - 1; forget(self); sem.release(to_release)`: the guard becomes a read guard *)
+           match take_held s held with
+           | Some (n, held') => if N.eqb n k && N.ltb 1 k
+                                then sem_release_code s (k - 1) (Log TG_DOWNGRADE [] (go r hs js ((s, 1%N) :: held') fs ahs))
+                                else misuse
+           | None => misuse end
+         | TMerge s =>
+           match take_held s held with
+           | Some (n1, h1) => match take_held s h1 with
+                              | Some (n2, h2) =>
+                                (* `self.permits += other.permits; other.permits = 0`, then `other` is dropped: add_permits(0) *)
+                                sem_release_code s 0 (Log TG_MERGE [(n1 + n2)%N] (go r hs js ((s, (n1 + n2)%N) :: h2) fs ahs))
+                              | None => misuse end
+           | None => misuse end
+         | TSplit s n =>
+           match take_held s held with
+           | Some _ => match split_held s n held with
+                       | Some held' => Log TG_SPLIT [1%N] (go r hs js ((s, n) :: held') fs ahs)
+                       | None => Log TG_SPLIT [0%N] (go r hs js held fs ahs) end
+           | None => misuse end
+         | TOsIsClosed o =>
+           atomic_b (fun e st => Some (e, st, os_tx_alive st o))
+             (fun alive =>
+                if alive then
+                  Atomic (fun e st => match os_get st o with Some x => Some (e, st, [b2n (os_complete (oo_in x))]) | None => None end)
+                    (fun a => Log TG_OSISCLOSED a (go r hs js held fs ahs))
                 else misuse)
          end
        end) (nth b bodies []) [] [] [] [] []
